@@ -554,6 +554,190 @@ theorem cacheit_choose_stream : ∀ (n : Nat) (ld lc : List E) (it : CacheIt),
           rw [hfun ({ it' with cur := some true, db := it'.db.next.1 } : CacheIt) rfl rfl] at this
           exact this
 
+/-! ### … and backwards -/
+
+theorem cur_of_stream_ldb_b {d : LdbIt} {e : E} {l : List E} (h : BStream d (e :: l)) : d.cur = some e := by
+  obtain ⟨h1, h2, _⟩ := h
+  have h1' : d.cur.map (·.1) = some e.1 := h1
+  have h2' : d.cur.map (·.2) = some e.2 := h2
+  cases hc : d.cur with
+  | none => simp [hc] at h1'
+  | some x => simp [hc] at h1' h2'; cases x; cases e; simp_all
+
+theorem cur_of_stream_treap_b {d : TreapIt} {e : E} {l : List E} (h : BStream d (e :: l)) : d.cur = some e := by
+  obtain ⟨h1, h2, _⟩ := h
+  have h1' : d.cur.map (·.1) = some e.1 := h1
+  have h2' : d.cur.map (·.2) = some e.2 := h2
+  cases hc : d.cur with
+  | none => simp [hc] at h1'
+  | some x => simp [hc] at h1' h2'; cases x; cases e; simp_all
+
+theorem cur_none_ldb_b {d : LdbIt} (h : BStream d []) : d.cur = none := by
+  have h' : d.cur.map (·.1) = none := h
+  cases hc : d.cur <;> simp_all
+
+theorem cur_none_treap_b {d : TreapIt} (h : BStream d []) : d.cur = none := by
+  have h' : d.cur.map (·.1) = none := h
+  cases hc : d.cur <;> simp_all
+
+theorem cskip_go_spec_b (it : CacheIt) : ∀ (ld : List E) (d : LdbIt) (fuel : Nat), BStream d ld → ld.length < fuel →
+    BStream (CacheIt.skip.go it false fuel d) (ld.dropWhile fun e => shadowC it e.1) := by
+  intro ld
+  induction ld with
+  | nil =>
+    intro d fuel hs _
+    have hc := cur_none_ldb_b hs
+    cases fuel with
+    | zero => simpa [CacheIt.skip.go] using hs
+    | succ f => simpa [CacheIt.skip.go, hc] using hs
+  | cons e ld ih =>
+    intro d fuel hs hf
+    cases fuel with
+    | zero => simp at hf
+    | succ f =>
+      have hc := cur_of_stream_ldb_b hs
+      obtain ⟨h1, h2, h3⟩ := hs
+      simp only [CacheIt.skip.go, hc, List.dropWhile_cons]
+      by_cases hsh : shadowC it e.1 = true
+      · have : (has it.sr e.1 || has it.sk e.1) = true := hsh
+        simp only [this, if_true, hsh]
+        exact ih _ f h3 (by simp at hf; omega)
+      · have : (has it.sr e.1 || has it.sk e.1) = false := by simpa [shadowC] using hsh
+        simp only [this, Bool.false_eq_true, if_false, hsh]
+        exact ⟨h1, h2, h3⟩
+
+theorem ldb_next_items_b (d : LdbIt) : (d.prev).1.items = d.items := by
+  unfold LdbIt.prev
+  cases d.pos with
+  | soi => rfl
+  | eoi => simp [LdbIt.last]; split <;> rfl
+  | «at» i => simp only []; split <;> rfl
+
+theorem cacheit_choose_stream_b : ∀ (n : Nat) (ld lc : List E) (it : CacheIt),
+    ld.length + lc.length ≤ n → ld.length ≤ it.db.items.length → it.fwd = false →
+    BStream it.db ld → BStream it.ci lc →
+    BStream (it.choose false).1 (mergeB (shadowC it) ld lc) := by
+  intro n
+  induction n with
+  | zero =>
+    intro ld lc it hn hf hfw hd hp
+    have h1 : ld = [] := by cases ld <;> simp_all
+    have h2 : lc = [] := by cases lc <;> simp_all
+    subst h1 h2
+    have hsk := cskip_go_spec_b it [] it.db (it.db.items.length + 1) hd (by simp)
+    have hsk' : (it.skip false).db.cur = none := cur_none_ldb_b (by simpa [CacheIt.skip] using hsk)
+    have hp' : (it.skip false).ci.cur = none := cur_none_treap_b (by simpa [CacheIt.skip] using hp)
+    simp only [mergeB, BStream, CacheIt.choose, hsk', hp']
+    rfl
+  | succ n ih =>
+    intro ld lc it hn hf hfw hd hp
+    have hsk := cskip_go_spec_b it ld it.db (it.db.items.length + 1) hd (by omega)
+    rw [mergeB_dropWhile]
+    generalize hld' : (ld.dropWhile fun e => shadowC it e.1) = ld' at hsk ⊢
+    have hlen : ld'.length ≤ ld.length := by rw [← hld']; exact dropWhile_length_le _ _
+    have hhead : ∀ d rest, ld' = d :: rest → shadowC it d.1 = false := by
+      intro d rest he
+      exact dropWhile_head_false (fun e : E => shadowC it e.1) ld d rest (by rw [hld', he])
+    have hdb : (it.skip false).db = CacheIt.skip.go it false (it.db.items.length + 1) it.db := rfl
+    have hci : (it.skip false).ci = it.ci := rfl
+    have hfw' : (it.skip false).fwd = false := hfw
+    have hsr : (it.skip false).sr = it.sr := rfl
+    have hsk2 : (it.skip false).sk = it.sk := rfl
+    -- the skipped leveldb iterator still iterates the same item list
+    have hitems : (it.skip false).db.items = it.db.items := by
+      rw [hdb]
+      generalize it.db.items.length + 1 = fu
+      generalize it.db = d0
+      induction fu generalizing d0 with
+      | zero => rfl
+      | succ f ihf =>
+        simp only [CacheIt.skip.go]
+        cases d0.cur with
+        | none => rfl
+        | some x =>
+          obtain ⟨k, v⟩ := x
+          simp only []
+          split
+          · rw [ihf]; simp only [Bool.false_eq_true, if_false]; exact ldb_next_items_b d0
+          · rfl
+    generalize hc' : it.skip false = it' at hdb hci hfw' hsr hsk2 hitems
+    rw [← hdb] at hsk
+    have hfun : ∀ (x : CacheIt), x.sr = it'.sr → x.sk = it'.sk → shadowC x = shadowC it :=
+      fun x h1 h2 => shadowC_congr x it (h1.trans hsr) (h2.trans hsk2)
+    unfold CacheIt.choose
+    simp only [hc']
+    cases ld' with
+    | nil =>
+      have hdn := cur_none_ldb_b hsk
+      cases lc with
+      | nil =>
+        have hcn := cur_none_treap_b (d := it'.ci) (by rw [hci]; exact hp)
+        simp only [hdn, hcn, mergeB, BStream]
+        rfl
+      | cons p lc' =>
+        have hcc := cur_of_stream_treap_b (d := it'.ci) (by rw [hci]; exact hp)
+        obtain ⟨p1, p2, p3⟩ := hp
+        rw [← hci] at p1 p2 p3
+        simp only [hdn, hcc, mergeB, BStream]
+        refine ⟨by show (it'.ci.cur).map (·.1) = _; rw [hcc]; rfl, by show (it'.ci.cur).map (·.2) = _; rw [hcc]; rfl, ?_⟩
+        have hnext : (ItOps.prev ({ it' with cur := some false } : CacheIt)).1 =
+            (({ it' with cur := some false, ci := it'.ci.prev.1 } : CacheIt).choose false).1 := by
+          simp [ItOps.prev, hfw']
+        rw [hnext]
+        have := ih [] lc' ({ it' with cur := some false, ci := it'.ci.prev.1 } : CacheIt)
+          (by simp at hn ⊢; omega) (by simp) hfw' (by simpa [BStream] using hsk) p3
+        rw [hfun ({ it' with cur := some false, ci := it'.ci.prev.1 } : CacheIt) rfl rfl] at this
+        simpa [mergeB] using this
+    | cons d rest =>
+      have hnsh := hhead d rest rfl
+      have hdc := cur_of_stream_ldb_b hsk
+      obtain ⟨d1, d2, d3⟩ := hsk
+      have hrest : rest.length + 1 ≤ it.db.items.length := by simp at hlen; omega
+      cases lc with
+      | nil =>
+        have hcn := cur_none_treap_b (d := it'.ci) (by rw [hci]; exact hp)
+        rw [mergeB_cons]
+        simp only [hnsh, Bool.false_eq_true, if_false, hdc, hcn, BStream]
+        refine ⟨by show (it'.db.cur).map (·.1) = _; rw [hdc]; rfl, by show (it'.db.cur).map (·.2) = _; rw [hdc]; rfl, ?_⟩
+        have hnext : (ItOps.prev ({ it' with cur := some true } : CacheIt)).1 =
+            (({ it' with cur := some true, db := it'.db.prev.1 } : CacheIt).choose false).1 := by
+          simp [ItOps.prev, hfw']
+        rw [hnext]
+        have := ih rest [] ({ it' with cur := some true, db := it'.db.prev.1 } : CacheIt)
+          (by simp at hn hlen ⊢; omega) (by simp only [ldb_next_items_b, hitems]; omega) hfw' d3
+          (by show BStream it'.ci []; rw [hci]; exact hp)
+        rw [hfun ({ it' with cur := some true, db := it'.db.prev.1 } : CacheIt) rfl rfl] at this
+        exact this
+      | cons p lc' =>
+        have hcc := cur_of_stream_treap_b (d := it'.ci) (by rw [hci]; exact hp)
+        obtain ⟨p1, p2, p3⟩ := hp
+        rw [← hci] at p1 p2 p3
+        rw [mergeB_cons]
+        simp only [hnsh, Bool.false_eq_true, if_false, hdc, hcc, Bool.true_and, Bool.not_true, Bool.false_and, Bool.or_false, Bool.false_or, Bool.not_false]
+        by_cases hgt : (compare d.1 p.1 == Ordering.lt) = true
+        · simp only [hgt, if_true, BStream]
+          refine ⟨by show (it'.ci.cur).map (·.1) = _; rw [hcc]; rfl, by show (it'.ci.cur).map (·.2) = _; rw [hcc]; rfl, ?_⟩
+          have hnext : (ItOps.prev ({ it' with cur := some false } : CacheIt)).1 =
+              (({ it' with cur := some false, ci := it'.ci.prev.1 } : CacheIt).choose false).1 := by
+            simp [ItOps.prev, hfw']
+          rw [hnext]
+          have := ih (d :: rest) lc' ({ it' with cur := some false, ci := it'.ci.prev.1 } : CacheIt)
+            (by simp at hn hlen ⊢; omega) (by simp only [hitems]; simpa using hrest) hfw' ⟨d1, d2, d3⟩ p3
+          rw [hfun ({ it' with cur := some false, ci := it'.ci.prev.1 } : CacheIt) rfl rfl] at this
+          exact this
+        · simp only [hgt, Bool.false_eq_true, if_false, BStream]
+          refine ⟨by show (it'.db.cur).map (·.1) = _; rw [hdc]; rfl, by show (it'.db.cur).map (·.2) = _; rw [hdc]; rfl, ?_⟩
+          have hnext : (ItOps.prev ({ it' with cur := some true } : CacheIt)).1 =
+              (({ it' with cur := some true, db := it'.db.prev.1 } : CacheIt).choose false).1 := by
+            simp [ItOps.prev, hfw']
+          rw [hnext]
+          have := ih rest (p :: lc') ({ it' with cur := some true, db := it'.db.prev.1 } : CacheIt)
+            (by simp at hn hlen ⊢; omega) (by simp only [ldb_next_items_b, hitems]; omega) hfw' d3
+            ⟨p1, p2, p3⟩
+          rw [hfun ({ it' with cur := some true, db := it'.db.prev.1 } : CacheIt) rfl rfl] at this
+          exact this
+
+
 /-! ### the leaf iterators walk their lists -/
 
 theorem ldbit_stream_from : ∀ (l pre : List E),
@@ -679,6 +863,197 @@ theorem mergeF_length_le (sh : Bytes → Bool) : ∀ (n : Nat) (ld lp : List E),
           split
           · have := ih (d :: ld) lp' (by simp at h ⊢; omega); simp at this ⊢; omega
           · have := ih ld (p :: lp') (by simp at h ⊢; omega); simp at this ⊢; omega
+
+theorem mergeB_length_le (sh : Bytes → Bool) : ∀ (n : Nat) (ld lp : List E), ld.length + lp.length ≤ n →
+    (mergeB sh ld lp).length ≤ ld.length + lp.length := by
+  intro n
+  induction n with
+  | zero =>
+    intro ld lp h
+    have h1 : ld = [] := by cases ld <;> simp_all
+    subst h1; simp [mergeB]
+  | succ n ih =>
+    intro ld lp h
+    cases ld with
+    | nil => simp [mergeB]
+    | cons d ld =>
+      rw [mergeB_cons]
+      split
+      · have := ih ld lp (by simp at h; omega); simp; omega
+      · cases lp with
+        | nil => have := ih ld [] (by simp at h; omega); simp at this ⊢; omega
+        | cons p lp' =>
+          simp only []
+          split
+          · have := ih (d :: ld) lp' (by simp at h ⊢; omega); simp at this ⊢; omega
+          · have := ih ld (p :: lp') (by simp at h ⊢; omega); simp at this ⊢; omega
+
+/-! ### `Seek` of the leaf iterators -/
+
+theorem findIdx_spec {α : Type} (p : α → Bool) : ∀ (l : List α),
+    l.findIdx? p = if (l.dropWhile fun x => !p x).isEmpty then none else some (l.takeWhile fun x => !p x).length := by
+  intro l
+  induction l with
+  | nil => rfl
+  | cons a l ih =>
+    rw [List.findIdx?_cons]
+    by_cases h : p a = true
+    · simp [h, List.dropWhile_cons, List.takeWhile_cons]
+    · have h' : p a = false := by simpa using h
+      simp only [h', Bool.false_eq_true, if_false, ih, List.dropWhile_cons, List.takeWhile_cons, Bool.not_false, if_true]
+      split <;> simp
+
+theorem ldbit_seek_stream (it : LdbIt) (k : Bytes) :
+    Stream (ItOps.seek it k).1 (it.items.dropWhile fun e => compare e.1 k == Ordering.lt) := by
+  show Stream (LdbIt.seek it k).1 _
+  unfold LdbIt.seek
+  have hp : (fun e : E => !(compare e.1 k != Ordering.lt)) = fun e => compare e.1 k == Ordering.lt := by
+    funext e; cases compare e.1 k <;> rfl
+  rw [findIdx_spec, hp]
+  have hsplit := List.takeWhile_append_dropWhile (p := fun e : E => compare e.1 k == Ordering.lt) (l := it.items)
+  generalize hA : (it.items.takeWhile fun e => compare e.1 k == Ordering.lt) = A at hsplit ⊢
+  generalize hD : (it.items.dropWhile fun e => compare e.1 k == Ordering.lt) = D at hsplit ⊢
+  have := ldbit_stream_from D A
+  rw [hsplit] at this
+  cases D with
+  | nil => simpa [Stream, ItOps.key, LdbIt.cur] using this
+  | cons d D' => simpa using this
+
+/-- the contents of a sorted map from `k'` on, as long as they stay in `[s, limit)` -/
+def rangeListFrom (k' s : Bytes) (limit : Option Bytes) (m : Map) : Map :=
+  (m.dropWhile fun x => compare x.1 k' == Ordering.lt).takeWhile fun x => inRange (some s) limit x.1
+
+/-- `Seek` of the treap-backed leveldb-iterator wrappers (`ldbTreapIter`, `ldbCacheIter`): a key before
+    the range is clamped to its start -/
+theorem treapit_seek_stream (it : TreapIt) (s k : Bytes) (hstart : it.start = some s) (hs : Sorted it.items) :
+    Stream (ItOps.seek it k).1
+      (rangeListFrom (if compare k s == Ordering.lt then s else k) s it.limit it.items) := by
+  show Stream (TreapIt.seek it k).1 _
+  unfold TreapIt.seek rangeListFrom
+  simp only [hstart, ceil_eq_dropWhile]
+  generalize (if compare k s == Ordering.lt then s else k) = k'
+  have hsplit := List.takeWhile_append_dropWhile (p := fun x : E => compare x.1 k' == Ordering.lt) (l := it.items)
+  generalize hA : (it.items.takeWhile fun x => compare x.1 k' == Ordering.lt) = A at hsplit
+  generalize hD : (it.items.dropWhile fun x => compare x.1 k' == Ordering.lt) = D at hsplit
+  cases D with
+  | nil => simp [TreapIt.land, Stream, ItOps.key]
+  | cons e B =>
+    simp only [List.head?_cons, TreapIt.land, List.takeWhile_cons, hstart]
+    by_cases hr : inRange (some s) it.limit e.1 = true
+    · simp only [hr, if_true]
+      have := treapit_stream_from B A e { it with isNew := false, cur := some e }
+        (by rw [hsplit]; exact hs) (by simp [hsplit]) rfl rfl
+      simpa [hstart] using this
+    · simp [hr, Stream, ItOps.key]
+
+/-! ### `Last` / `Prev` of the leaf iterators -/
+
+theorem ldbit_bstream_from : ∀ (r post : List E),
+    BStream ({ items := r.reverse ++ post, pos := if r.isEmpty then Pos.soi else Pos.at (r.length - 1) } : LdbIt) r := by
+  intro r
+  induction r with
+  | nil => intro post; simp [BStream, ItOps.key, LdbIt.cur]
+  | cons e r ih =>
+    intro post
+    have hitems : (e :: r).reverse ++ post = r.reverse ++ e :: post := by simp
+    simp only [hitems, List.isEmpty_cons, Bool.false_eq_true, if_false, List.length_cons, Nat.add_sub_cancel]
+    have hcur : ({ items := r.reverse ++ e :: post, pos := Pos.at r.length } : LdbIt).cur = some e := by
+      simp [LdbIt.cur]
+    refine ⟨by simp [ItOps.key, hcur], by simp [ItOps.value, hcur], ?_⟩
+    have := ih (e :: post)
+    show BStream (LdbIt.prev _).1 r
+    simp only [LdbIt.prev]
+    cases r with
+    | nil => simpa using this
+    | cons b r' => simpa using this
+
+theorem ldbit_last_bstream (it : LdbIt) : BStream (ItOps.last it).1 it.items.reverse := by
+  show BStream (LdbIt.last it).1 _
+  have := ldbit_bstream_from it.items.reverse []
+  unfold LdbIt.last
+  cases h : it.items with
+  | nil => simp [BStream, ItOps.key, LdbIt.cur]
+  | cons e l =>
+    rw [h] at this
+    simpa [h] using this
+
+theorem floor_eq_takeWhile (k : Bytes) (m : Map) :
+    floor k true m = (m.takeWhile fun x => compare x.1 k == Ordering.lt).getLast? := by
+  induction m with
+  | nil => rfl
+  | cons a m ih =>
+    obtain ⟨ak, av⟩ := a
+    rcases ElaVerif.Treap.cmp_cases k ak with hc | hc | hc
+    · have : compare ak k = .gt := ElaVerif.Treap.cmp_gt_of_lt hc
+      simp [floor, hc, List.takeWhile_cons, this]
+    · have := ElaVerif.Treap.cmp_eq hc; subst this
+      simp [floor, hc, List.takeWhile_cons, ElaVerif.Treap.cmp_self]
+    · have h2 : compare ak k = .lt := ElaVerif.Treap.cmp_lt_of_gt hc
+      simp only [floor, hc, List.takeWhile_cons, h2, beq_self_eq_true, if_true, ih]
+      cases h : (m.takeWhile fun x => compare x.1 k == Ordering.lt) with
+      | nil => simp
+      | cons b l =>
+        cases hg : (b :: l).getLast? with
+        | none => simp at hg
+        | some x => simp [List.getLast?_cons_cons, hg]
+
+/-- a treap iterator standing on `e` walks the sorted contents before it, downwards, while in range -/
+theorem treapit_bstream_from : ∀ (Ar B : Map) (e : E) (it : TreapIt),
+    Sorted (Ar.reverse ++ e :: B) → it.items = Ar.reverse ++ e :: B → it.cur = some e → it.isNew = false →
+    BStream it (e :: Ar.takeWhile fun x => inRange it.start it.limit x.1) := by
+  intro Ar
+  induction Ar with
+  | nil =>
+    intro B e it hs hi hc hn
+    refine ⟨by simp [ItOps.key, hc], by simp [ItOps.value, hc], ?_⟩
+    show BStream (TreapIt.prev it).1 []
+    have hfl := ElaVerif.Treap.floor_append_eq e.1 true [] B e (by simp) (ElaVerif.Treap.cmp_self _)
+    simp only [List.nil_append] at hfl
+    simp [TreapIt.prev, hn, hc, hi, hfl, TreapIt.land, BStream, ItOps.key]
+  | cons a Ar ih =>
+    intro B e it hs hi hc hn
+    refine ⟨by simp [ItOps.key, hc], by simp [ItOps.value, hc], ?_⟩
+    show BStream (TreapIt.prev it).1 _
+    have hA : ∀ x ∈ (a :: Ar).reverse, compare e.1 x.1 = .gt := by
+      intro x hx
+      exact ElaVerif.Treap.cmp_gt_of_lt ((ElaVerif.Treap.sorted_append_cons.mp hs).2.2.1 x hx)
+    have hfl := ElaVerif.Treap.floor_append_eq e.1 true (a :: Ar).reverse B e hA (ElaVerif.Treap.cmp_self _)
+    have hlast : ((a :: Ar).reverse).getLast? = some a := by simp
+    simp only [TreapIt.prev, hn, Bool.false_eq_true, if_false, hc, hi, hfl, if_true, hlast, TreapIt.land,
+      List.takeWhile_cons]
+    by_cases hr : inRange it.start it.limit a.1 = true
+    · simp only [hr, if_true]
+      have hs' : Sorted (Ar.reverse ++ a :: (e :: B)) := by simpa using hs
+      let it2 : TreapIt := { items := (a :: Ar).reverse ++ e :: B, start := it.start, limit := it.limit, cur := some a, isNew := false, live := it.live }
+      have := ih (e :: B) a it2 hs' (by simp [it2]) rfl rfl
+      simpa [it2] using this
+    · simp [hr, BStream, ItOps.key]
+
+/-- the contents of a sorted map below `l`, downwards, as long as they stay in the range -/
+def rangeListRev (s : Option Bytes) (l : Bytes) (m : Map) : Map :=
+  ((m.takeWhile fun x => compare x.1 l == Ordering.lt).reverse).takeWhile fun x => inRange s (some l) x.1
+
+theorem treapit_last_bstream (it : TreapIt) (l : Bytes) (hlim : it.limit = some l) (hs : Sorted it.items) :
+    BStream (ItOps.last it).1 (rangeListRev it.start l it.items) := by
+  show BStream (TreapIt.last it).1 _
+  unfold TreapIt.last rangeListRev
+  simp only [hlim, floor_eq_takeWhile]
+  have hsplit := List.takeWhile_append_dropWhile (p := fun x : E => compare x.1 l == Ordering.lt) (l := it.items)
+  generalize hA : (it.items.takeWhile fun x => compare x.1 l == Ordering.lt) = A at hsplit ⊢
+  generalize hD : (it.items.dropWhile fun x => compare x.1 l == Ordering.lt) = D at hsplit
+  -- split A at its last element
+  rcases List.eq_nil_or_concat A with hnil | ⟨A', e, hA'⟩
+  · subst hnil; simp [TreapIt.land, BStream, ItOps.key]
+  · subst hA'
+    simp only [List.concat_eq_append, List.getLast?_append, List.getLast?_singleton, Option.some_or, List.reverse_append,
+      List.reverse_cons, List.reverse_nil, List.nil_append, List.singleton_append, List.takeWhile_cons, TreapIt.land, hlim]
+    by_cases hr : inRange it.start (some l) e.1 = true
+    · simp only [hr, if_true]
+      have hitems : it.items = A'.reverse.reverse ++ e :: D := by rw [← hsplit]; simp
+      have := treapit_bstream_from A'.reverse D e { it with isNew := false, cur := some e }
+        (by rw [← hitems]; exact hs) hitems rfl rfl
+      simpa [hlim] using this
+    · simp [hr, BStream, ItOps.key]
 
 /-! ### what the merged list is, point-wise -/
 
